@@ -78,6 +78,11 @@ def judge_query(rec, be, ticks, tick, h, case_fn):
                           f"tempo event is index {g} >= hint (tempo ticks {ticks[:10]})", case_fn(), "valid-hint-rejected")
             return
         plain = be.timestamp_at_tick(tick)
+        conv = be.timestamp_at_tick_no_optimize_return(tick)
+        if conv != plain[0]:
+            rec.violation("unhinted-forms-disagree", f"timestamp_at_tick_no_optimize_return({tick}) = {conv} but timestamp_at_tick({tick}) = "
+                          f"{plain[0]} (tempo ticks {ticks[:10]})", case_fn(), "unhinted-convenience-query-differs")
+            return
         if (ts, idx) != plain or idx != g:
             rec.violation("hint-visible", f"timestamp_at_tick({tick}, start_iteration_index={h}) = {(str(ts), idx)}; without a hint "
                           f"{(str(plain[0]), plain[1])}; governing index {g} (tempo ticks {ticks[:10]})", case_fn(), "hint-changes-result")
@@ -110,7 +115,7 @@ def scope(rec, n, rng):
         ticks = [0]
         for g in gaps:
             ticks.append(ticks[-1] + g)
-        tempos = [[t, gen.usable_n(rng.choice([60000, 120000, 90500, 200000, 1000, 999999]))] for t in ticks]
+        tempos = [[t, gen.usable_n(rng.choice([60000, 120000, 120000, 90500, 200000, 1000, 999999]))] for t in ticks]  # incl. equal-tempo runs
         res = rng.choice([192, 1, 480])
         be = bpm_events_for(tempos, res)
         qs = sorted({t + d for t in ticks for d in (-1, 0, 1)} | {ticks[-1] + 10**6})
@@ -161,6 +166,10 @@ def build_disordered(rng, kind, mode, directed=None):
     res = rng.choice([192, 480, 7])
     nt = rng.choice([2, 3, 8, 50])
     tempos = gen.gen_tempos(rng, "realistic", res, nt, 1200 * 10**6)
+    if rng.random() < 0.3:  # runs of identical consecutive tempi (Moonscraper writes them for anchored beats)
+        for k in range(1, len(tempos)):
+            if rng.random() < 0.6:
+                tempos[k][1] = tempos[k - 1][1]
     tm = model.TempoMap(res, tempos)
     hz = tm.ticks[-1] + 4 * res
     if directed == "same_segment":
@@ -175,6 +184,9 @@ def build_disordered(rng, kind, mode, directed=None):
     else:
         ticks = sorted(set(gen.interesting_ticks(rng, tm, hz, 12)))
     sync = ["  0 = TS 4"] + [f"  {t} = B {n}" for t, n in tempos]
+    if rng.random() < 0.5:  # anchors, agreeing with the tempo arithmetic or not: they are data, not a second tempo map
+        for t in rng.sample(tm.ticks, min(len(tm.ticks), rng.choice([1, 2, 4]))):
+            sync.append(f"  {t} = A {max(0, int(tm.exact(t)) + rng.choice([0, 1, -1, 1000, -250000, 10**6]))}")
     events, body = [], []
     if kind == "TS":
         lines = [f"  {t} = TS {3 + i % 5}" for i, t in enumerate(ticks) if t > 0]
